@@ -43,7 +43,8 @@ REQUIRED = ('log_replays', 'double_runs', 'copies_taken',
             'containers_scanned', 'post_hand_shows_logged',
             'copies_in_phase:push', 'copies_in_phase:kill',
             'copies_in_phase:showdown', 'copies_in_phase:pull',
-            'copies_in_phase:bet', 'copies_in_phase:deal')
+            'copies_in_phase:bet', 'copies_in_phase:deal',
+            'observer_query_points')
 
 CUSTOMS = ('kuhn', 'draw5', 'stud5', 'greek', 'courchevel', 'holdem8',
            'plo8', 'badugi1', 'razzdraw', 'random')
@@ -246,7 +247,7 @@ class PostShow(Monitor):
 
 
 def make_monitors():
-    return [PostShow(), CopyMonitor()]
+    return [driver.Observer(), PostShow(), CopyMonitor()]
 
 
 def gen_kwargs(rng):
